@@ -27,7 +27,7 @@ DEFAULT_FEATURES = dict(
     params=0.35, hooks=0.3, join=0.3, loops=0.5, conds=0.7, render=0.3, inputs=0.15,
     inline_cond=0.4, faults=0.15, glue=0.3, tags=0.2, comments=0.2, py_blocks=0.3,
     top_jumps=0.25, block_jumps=0.3, one_time=0.4, block_choices=0.5, fmt=0.4,
-    jump_mode_cycles=0.15, legacy=0.0, stmt_faults=0.08, shadow=0.3, shared_src=0.07,
+    jump_mode_cycles=0.15, legacy=0.0, stmt_faults=0.08, shadow=0.3, shared_src=0.07, colon_texts=0.15,
 )
 
 
@@ -322,6 +322,9 @@ class Gen:
         r = self.r
         tgt = "@join" if join else self.target(cur_idx, False)
         text = [("t", self.prose())]
+        if self.p("colon_texts"):
+            # a colon in the text of a choice (its record among the used one-time choices is "passage:text:target")
+            text = [("t", r.choice(["Ask: ", "12:30 ", "a:b:c ", ": "])) ] + text
         if r.random() < 0.3:
             text.append(("t", " "))
             text.append(("e", self.int_expr(1, ints)))
@@ -413,6 +416,9 @@ class Gen:
             var, coll, inner = "k, v", "list(d.items())", (ints or INT_VARS) + ["v"]
         elif k < 0.9:
             var, coll, inner = r.choice(["a", "it"]), r.choice(["ys", "list(xs)"]), ints   # shadows / restores a global
+            own = [v for v in (ints or []) if v not in INT_VARS and v not in ("it", "v", "k", "w")]
+            if own and self.p("shadow"):
+                var = r.choice(own)        # a loop variable named like a parameter of the passage
         else:
             var, coll, inner = "it", r.choice(["nope", "5", "xs[99]"]), ints       # failing collection
         self.loop_depth = getattr(self, "loop_depth", 0) + 1
@@ -540,6 +546,9 @@ class Gen:
                 t2 = self.target(idx, True)
                 if t2 is not None and r.random() < 0.25:
                     items.append({"k": "jump", "target": t2, "args": self.args_for(t2, ints)})     # never reached: the first jump wins
+                if self.hook_names and r.random() < 0.4:
+                    # commands written below the jump are commands of the passage all the same (they run on entry)
+                    items.append({"k": "hook", "add": r.random() < 0.7, "target": r.choice(self.hook_names)})
         return {"name": name, "params": params, "tags": ["ptag"] if self.p("tags") else [], "items": items}
 
     def join_block(self, ints):
